@@ -267,17 +267,21 @@ func verifStreamRender(sc verifStreamScn, items []verifStreamItem) []string {
 		if finOnLast && i == lastContent {
 			fin = sc.Fin
 			env = verifStreamEnvelope([]any{verifStreamChoice(c.delta, fin)})
-			if sc.Usage == "fin" {
+			if sc.Usage == "fin" || sc.Usage == "running" {
 				env["usage"] = usage
 			}
 		} else {
 			env = verifStreamEnvelope([]any{verifStreamChoice(c.delta, nil)})
+			if sc.Usage == "running" {
+				// a backend that reports a running usage on every chunk (continuous usage stats): the LAST one counts
+				env["usage"] = map[string]any{"prompt_tokens": verifStreamUin, "completion_tokens": 1 + i%5, "total_tokens": verifStreamUin + 1 + i%5}
+			}
 		}
 		out = append(out, verifStreamCanon(env))
 	}
 	if sc.Fin != "none" && !finOnLast {
 		env := verifStreamEnvelope([]any{verifStreamChoice(map[string]any{}, sc.Fin)})
-		if sc.Usage == "fin" {
+		if sc.Usage == "fin" || sc.Usage == "running" {
 			env["usage"] = usage
 		}
 		out = append(out, verifStreamCanon(env))
